@@ -312,3 +312,12 @@ func WGWait(wg *sync.WaitGroup) {
 	}
 	wg.Wait()
 }
+
+// AfterOp wraps an atomic operation that is part of a larger expression: the
+// value passes through and an inner yield point follows the operation.
+//
+//go:norace
+func AfterOp[T any](v T) T {
+	PointAt(0)
+	return v
+}
